@@ -225,5 +225,6 @@ def run(ctx):
         ctx.case(digest("ow", n))
         if n not in src_names:
             ctx.violation("C08/overwrite-list/%s" % n, "dists/overwrite names %s, no such profile in the source tree" % n, {"name": n})
+    ctx.require(ctx.evaluations >= 500 * max(1, len([b for b in builds if b.rc == 0])), "only %d references seen" % ctx.evaluations)
     ctx.extra["configurations"] = len(cfgs)
     ctx.samples = [{"cfg": c.id} for c in cfgs[:3]]
